@@ -290,29 +290,10 @@ def d10_argument_dispatch(chk, repo):
                            ("not isinstance(n, (tuple, list, np.ndarray))", "TypeError", "n-type")):
         ok = geom._guard_in_function(v, cond)
         chk.ob(f"mesh.Mesh.__init__::refuses::{key}", ok, "C01.D10", f"`{cond}` must raise {exc}", v.f)
-    for q, scalar, elem in (("mesh.Mesh.index2point", "numbers.Integral", "numbers.Integral"),
-                            ("mesh.Mesh.point2index", "numbers.Real", "numbers.Real")):
-        w = FV(repo, q)
-        pname = w.f.params[1]
-        chain = [s for s in w.body if isinstance(s, ast.If)][0]
-        conds, tail = _branch_conditions(w, chain)
-        P = w.spec(pname)
-        kinds = {}
-        for ct, st in conds:
-            if w.eq(ct, w.spec(f"isinstance({pname}, {scalar})")):
-                kinds["scalar"] = st
-            elif (decode_call(w.ctx, ct) or ("",))[0] == "isinstance" and w.eq(decode_call(w.ctx, ct)[1][0], P):
-                kinds["sequence"] = st
-        ok = set(kinds) == {"scalar", "sequence"} and always_raises(tail)
-        if ok:
-            inner = [s for s in kinds["sequence"].body if isinstance(s, ast.If) and always_raises(s.body)]
-            ok = len(inner) == 1 and w.eq(w.ev.term(inner[0].test, at=inner[0]),
-                                          w.spec(f"any(not isinstance(i, {elem}) for i in {pname})"))
-            wrap = [s for s in kinds["scalar"].body if isinstance(s, ast.Assign)]
-            ok = ok and len(wrap) == 1 and w.eq(w.term(wrap[0].value, at=wrap[0]), w.spec(f"[{pname}]"))
-        chk.ob(f"{q}::argument-types", ok, "C01.D10",
-               f"a scalar {scalar.split('.')[-1]} is wrapped into a list, a tuple/list/array must hold only {elem.split('.')[-1]}s "
-               "(TypeError otherwise), anything else raises TypeError", w.f, chain)
+    # index2point / point2index: a scalar is wrapped, sequences must hold only integers / reals, anything else is refused
+    # (decided as reached-iff predicates: independent of how the alternatives are nested or ordered)
+    geom.refusal_table(chk, "C01", quals=["mesh.Mesh.index2point", "mesh.Mesh.point2index"])
+    geom.defaults_table(chk, "C01", quals=["mesh.Mesh.index2point", "mesh.Mesh.point2index"])
     c = FV(repo, "region.Region.__contains__")
     rets = [r for r in c.returns() if r.value is not None]
     last = rets[-1]
